@@ -195,7 +195,7 @@ fn hostile_int(h: &mut Hd, rng: &mut Rng, iv: &mut IntVector, steps: usize) {
         let len = iv.len();
         let (a, cls) = hostile(rng, len);
         let v = rng.next_u64();
-        match rng.below(16) {
+        match rng.below(17) {
             0 | 1 => h.call("IntVector::get", cls, a, || iv.get(a)),
             2 => h.call("IntVector::get_or", cls, a, || iv.get_or(a, 5)),
             3 | 4 => h.call("IntVector::set", cls, a, || iv.set(a, v)),
@@ -209,6 +209,7 @@ fn hostile_int(h: &mut Hd, rng: &mut Rng, iv: &mut IntVector, steps: usize) {
             12 => h.call("IntVector::extend", "-", 0, || iv.extend(vec![v, 1, 2])),
             13 => h.call("IntVector::serialize", "-", 0, || { let mut o: Vec<u8> = Vec::new(); iv.serialize(&mut o).map(|_| o.len()) }),
             14 => { let w = *rng.pick(&[0usize, 1, 7, 63, 64, 65, usize::MAX]); let n = std::cmp::min(a, if cfg!(miri) { 60 } else { 3000 }); h.call("IntVector::with_len", cls, n, || { if let Ok(x) = IntVector::with_len(n, w, v) { *iv = x; } }) },
+            15 => h.call("RawVector::from(IntVector)", "-", 0, || { let r = RawVector::from(iv.clone()); (r.len(), r.count_ones(), r.is_mutable()) }),
             _ => h.call("IntVector::misc", "-", 0, || (iv.width(), iv.max_len(), iv.capacity(), iv.is_empty(), iv.is_mutable())),
         }
     }
@@ -246,7 +247,7 @@ fn hostile_bv(h: &mut Hd, rng: &mut Rng, bv: &mut BitVector, other: Option<&BitV
         let len = bv.len();
         let (a, cls) = hostile(rng, len);
         let mut r2 = rng.clone();
-        match rng.below(30) {
+        match rng.below(31) {
             0 => h.call("BitVector::get", cls, a, || bv.get(a)),
             1 => h.call("BitVector::rank", cls, a, || bv.rank(a)),
             2 => h.call("BitVector::rank_zero", cls, a, || bv.rank_zero(a)),
@@ -276,6 +277,7 @@ fn hostile_bv(h: &mut Hd, rng: &mut Rng, bv: &mut BitVector, other: Option<&BitV
             26 => h.call("SparseVector::copy_bit_vec(BitVector)", "-", 0, || SparseVector::copy_bit_vec(bv).len()),
             27 => h.call("RLVector::copy_bit_vec(BitVector)", "-", 0, || RLVector::copy_bit_vec(bv).len()),
             28 => h.call("BitVector::as_ref", "-", 0, || { let r: &RawVector = bv.as_ref(); r.len() }),
+            29 => h.call("RawVector::from(BitVector)", "-", 0, || { let r = RawVector::from(bv.clone()); (r.len(), r.count_ones(), r.is_mutable(), BitVector::from(r).count_ones()) }),
             _ => h.call("BitVector::enable_pred_succ", "-", 0, || bv.enable_pred_succ()),
         }
     }
@@ -381,6 +383,7 @@ fn sparse(ctx: &mut Ctx, cov: &mut HashSet<String>) {
         let steps = 1 + rng.below(30);
         let mut h = Hd { ctx, cov, calls: 0, panics: 0, what: format!("SparseVector n={} m={} multiset={} loaded={}", n, values.len(), multiset, c % 3 == 0) };
         hostile_bitvec_like(&mut h, &mut rng, "SparseVector", &sv, steps);
+        if c % 7 == 0 { h.call("SparseVector::enable_*", "-", 0, || { let mut x = sv.clone(); x.enable_rank(); x.enable_select(); x.enable_select_zero(); x.enable_pred_succ(); x == sv }); }
         { let mut r2 = rng.clone(); h.call("SparseVector::one_iter(double-ended)", "-", 0, || take_back(sv.one_iter(), &mut r2)); }
         { let mut r2 = rng.clone(); h.call("SparseVector::iter(double-ended)", "-", 0, || if n <= 100000 { take_back(sv.iter(), &mut r2) } else { 0 }); }
         h.call("SparseVector::is_multiset", "-", 0, || sv.is_multiset());
@@ -444,6 +447,7 @@ fn run_length(ctx: &mut Ctx, cov: &mut HashSet<String>) {
         let steps = 1 + rng.below(30);
         let mut h = Hd { ctx, cov, calls: 0, panics: 0, what: format!("RLVector len={} runs={} loaded={}", n, nruns, c % 3 == 0) };
         hostile_bitvec_like(&mut h, &mut rng, "RLVector", &rv, steps);
+        if c % 7 == 0 { h.call("RLVector::enable_*", "-", 0, || { let mut x = rv.clone(); x.enable_rank(); x.enable_select(); x.enable_select_zero(); x.enable_pred_succ(); x == rv }); }
         { let mut r2 = rng.clone(); h.call("RLVector::run_iter", "-", 0, || { let mut it = rv.run_iter(); let mut k = 0; for _ in 0..6 { let r = if r2.chance(1, 3) { it.nth(usize::MAX) } else { it.next() }; if r.is_some() { k += 1; } black_box((it.offset(), it.rank(), it.rank_zero())); } k }); }
         h.call("RLBuilder::hostile", "-", 0, || {
             let mut b = RLBuilder::new();
@@ -477,7 +481,7 @@ fn wavelet(ctx: &mut Ctx, cov: &mut HashSet<String>) {
             let (a, cls) = hostile(&mut rng, len);
             let val = match rng.below(6) { 0 => 0, 1 => (1u64 << width) - 1, 2 => 1u64 << width, 3 => u64::MAX, 4 => if len > 0 { v[rng.below(len)] } else { 3 }, _ => rng.next_u64() & 0xFFFF };
             let mut r2 = rng.clone();
-            match rng.below(16) {
+            match rng.below(17) {
                 0 => h.call("WaveletMatrix::get", cls, a, || wm.get(a)),
                 1 => h.call("WaveletMatrix::get_or", cls, a, || wm.get_or(a, 1)),
                 2 => h.call("WaveletMatrix::rank", cls, a, || wm.rank(a, val)),
@@ -493,6 +497,7 @@ fn wavelet(ctx: &mut Ctx, cov: &mut HashSet<String>) {
                 12 => h.call("WMCore::map_down_with", cls, a, || core.map_down_with(a, val)),
                 13 => h.call("WMCore::map_up_with", cls, a, || core.map_up_with(a, val)),
                 14 => { let (b, _) = hostile(&mut rng, len); h.call("WMCore::map_down_with_two_positions", cls, a, || core.map_down_with_two_positions(a, b, val)) },
+                15 => h.call("WaveletMatrix::set", cls, a, || { let mut w2 = wm.clone(); w2.set(a, val); w2.len() }),
                 _ => h.call("WaveletMatrix::into_iter", "-", 0, || take_some(wm.clone().into_iter(), &mut r2)),
             }
         }
@@ -538,7 +543,7 @@ fn mapped(ctx: &mut Ctx, cov: &mut HashSet<String>) {
         let mi = IntVectorMapper::new(&map, off[4]).unwrap();
         for _ in 0..steps {
             let mut r2 = rng.clone();
-            match rng.below(12) {
+            match rng.below(17) {
                 0 => { let (a, cls) = hostile(&mut rng, ms.len()); h.call("MappedSlice::index", cls, a, || ms[a]) },
                 1 => h.call("MappedSlice::deref", "-", 0, || (ms.iter().copied().fold(0u64, |x, y| x ^ y), ms.len(), ms.is_empty(), ms.as_ref().len())),
                 2 => { let (a, cls) = hostile(&mut rng, mb.len()); h.call("MappedBytes::index", cls, a, || mb[a]) },
@@ -550,7 +555,12 @@ fn mapped(ctx: &mut Ctx, cov: &mut HashSet<String>) {
                 8 => { let (a, cls) = hostile(&mut rng, mi.len()); h.call("IntVectorMapper::get", cls, a, || mi.get(a)) },
                 9 => { let (a, cls) = hostile(&mut rng, mi.len()); h.call("IntVectorMapper::get_or", cls, a, || mi.get_or(a, 3)) },
                 10 => h.call("IntVectorMapper::iter", "-", 0, || take_back(mi.iter(), &mut r2)),
-                _ => {
+                12 => { let (a, cls) = hostile(&mut rng, mr.len()); h.call("RawVectorMapper::set_bit", cls, a, || { let mut m2 = RawVectorMapper::new(&map, off[3]).unwrap(); m2.set_bit(a, true); m2.len() }) },
+                13 => { let (a, cls) = hostile(&mut rng, mi.len()); h.call("IntVectorMapper::set", cls, a, || { let mut m2 = IntVectorMapper::new(&map, off[4]).unwrap(); m2.set(a, 1); m2.len() }) },
+                14 => h.call("IntVectorMapper::accessors", "-", 0, || { let r: &RawVectorMapper = mi.as_ref(); (r.len(), mi.max_len(), mi.width(), mi.is_empty(), mi.map_offset(), mi.map_len()) }),
+                15 => h.call("RawVectorMapper::as_ref", "-", 0, || { let sl: &MappedSlice<u64> = mr.as_ref(); (sl.len(), mr.map_offset(), mr.map_len(), map.filename().to_path_buf(), map.mode(), map.len(), map.is_empty()) }),
+                16 => { let (a, cls) = hostile(&mut rng, (mr.len() + 63) / 64); let w = 1 + rng.below(64); h.call("RawVectorMapper::int", cls, a, || if a.checked_add(w).map(|e| e <= mr.len()).unwrap_or(false) { unsafe { mr.int(a, w) } } else { 0 }) },
+                11 | _ => {
                     // New views at hostile offsets (refused or granted, never out of the mapping).
                     let (a, cls) = hostile(&mut rng, map.len());
                     h.call("MemoryMapped::new", cls, a, || {
